@@ -111,7 +111,9 @@ def one(ctx: Ctx, spec, dtype, m, exhaustive):
         mk_int = lambda q: cls(pref_vector=torch.tensor([int(v) for v in q], dtype=torch.int64))      # noqa: E731
         A = mk_int(pv)
         ctx.count("family", "integer-preference-tensor")
-    if spec.name == "MGDA" and mgda_margin(Jt) < (1e-3 if dtype == torch.float32 else 1e-7):
+    # (two rows: no path to depend on — exact line search reaches the minimum-norm point of the segment in one step from
+    #  anywhere, theorem C18.mgda_two_rows_exact — so the margin rule applies from three rows on)
+    if spec.name == "MGDA" and m >= 3 and mgda_margin(Jt) < (1e-3 if dtype == torch.float32 else 1e-7):
         ctx.count("skipped_low_margin", "MGDA")       # a near-tie in some iteration: the path may depend on the row order
         return
     st, x = attempt(A, Jt, seed)
